@@ -28,4 +28,15 @@ PROPS = {
     "C06": {"module": "harness.c06", "level_text": "TODO", "level_note": _BOUNDED},
     "C07": {"module": "harness.c07", "level_text": "TODO", "level_note": _BOUNDED},
     "C10": {"module": "harness.c10", "level_text": "TODO", "level_note": _BOUNDED},
+    "C09": {"module": "harness.c09", "level_text": "TODO", "level_note": _BOUNDED},
+    "C11": {"module": "harness.c11", "level_text": "TODO", "level_note": _BOUNDED},
+    "C12": {"module": "harness.c12", "level_text": "TODO", "level_note": _BOUNDED},
+    "C13": {"module": "harness.c13", "level_text": "TODO", "level_note": _BOUNDED},
+    "C14": {"module": "harness.c14", "level_text": "TODO", "level_note": _BOUNDED},
+    "C15": {"module": "harness.c15", "level_text": "TODO", "level_note": _BOUNDED},
+    "C16": {"module": "harness.c16", "level_text": "TODO", "level_note": _BOUNDED},
+    "C17": {"module": "harness.c17", "level_text": "TODO", "level_note": _BOUNDED},
+    "C18": {"module": "harness.c18", "level_text": "TODO", "level_note": _BOUNDED},
+    "C19": {"module": "harness.c19", "level_text": "TODO", "level_note": _BOUNDED},
+    "C20": {"module": "harness.c20", "level_text": "TODO", "level_note": _BOUNDED},
 }
